@@ -34,6 +34,11 @@ add("C05", MC, "(a) callback protocol checked on every execution of the exhausti
 ARR_NOTE = "Trusted: NumPy as reference on the concatenated data; sync scheduler; enumeration bounds as in the evidence rule. Known findings (known_findings.json) are matched by narrow (index-kind, failure-class, input-class) keys."
 add("C20", EX, "Bounded-exhaustive: every chunking x every slice/int/index-vector/mask of every small 1-d array, all index tuples over boundary-hitting per-axis alphabets in 2-d, vindex point lists and .blocks indexers, each compared with NumPy including lazy shape/chunks and per-block shapes.", "5/C20", ARR_NOTE,
     "bounded exhaustive enumeration of inputs (all chunkings x all indices of small arrays) against a NumPy reference model")
+GRAPH_NOTE = "Trusted: the harness's own reference (Kahn / reachability / recursive evaluator), int keys making set order a function of the enumerated labelling, PYTHONHASHSEED=0 for string keys; bounds as in the evidence rule."
+add("C06", EX, "Bounded-exhaustive: order() is run on every DAG with <= 5 (6) nodes x node kinds x external references x key styles x insertion orders and on every one-back-edge cyclic variant; distinctness, dependency consistency, key set and cycle rejection are checked on each.", "5/C06", GRAPH_NOTE,
+    "bounded exhaustive enumeration of all small labelled DAGs with invariant check")
+add("C07", EX, "Bounded-exhaustive: ALL labelled digraphs with <= 4 (5) nodes x all start-key subsets; toposort/getcycle/isdag compared with a reference, every call under a watchdog so non-termination is a reported violation.", "5/C07", GRAPH_NOTE,
+    "bounded exhaustive enumeration of all small digraphs x start sets against a reference algorithm")
 
 
 def build():
